@@ -330,6 +330,12 @@ pub fn explore(pool: &Pool, spec: &Spec, kf: &Known) -> Outcome {
                         let ob = res.obs.last().unwrap();
                         outcome_set.insert(fnv64(serde_json::to_string(&ob.res).unwrap_or_default().as_bytes()));
                         all_ds = model.step(op, ob);
+                        if spec.prop == "C12" && matches!(op, Op::ReclaimTick) && res.digests.len() == job.ops.len() && job.ops.len() >= 2 {
+                            let n = res.digests.len();
+                            if let Some(msg) = reclaim_oracle(cfg.cons == Consistency::Strict, &res.digests[n - 2], &res.digests[n - 1]) {
+                                all_ds.push(Discrepancy { class: "reclaim.unconsumed", detail: msg, pure_loss: false, pure_redelivery: false });
+                            }
+                        }
                         if let Some(ex) = &spec.extra {
                             all_ds.extend(ex(&model, &job.ops, res));
                         }
@@ -418,6 +424,88 @@ pub fn explore(pool: &Pool, spec: &Spec, kf: &Known) -> Outcome {
     stats.distinct_outcomes = outcome_set.len();
     stats.violations = violations.len() as u64;
     Outcome { stats, violations, known_lines }
+}
+
+/// WAL files of a digest: (positional name, content hash)
+fn digest_wal_files(d: &serde_json::Value) -> Vec<(String, String)> {
+    d["files"]
+        .as_array()
+        .map(|a| {
+            a.iter()
+                .filter(|f| !f["dir"].as_bool().unwrap_or(false))
+                .filter_map(|f| {
+                    let n = f["name"].as_str()?;
+                    if n.starts_with('F') && n[1..].chars().all(|c| c.is_ascii_digit()) {
+                        Some((n.to_string(), format!("{}:{}", f["len"], f["fnv"].as_str().unwrap_or(""))))
+                    } else {
+                        None
+                    }
+                })
+                .collect()
+        })
+        .unwrap_or_default()
+}
+
+/// Positional names (in `before`) of the WAL files that are gone in `after`.
+pub fn deleted_wal_files(before: &str, after: &str) -> Vec<String> {
+    let (Ok(b), Ok(a)) = (serde_json::from_str::<serde_json::Value>(before), serde_json::from_str::<serde_json::Value>(after)) else { return vec![] };
+    let mut left: Vec<String> = digest_wal_files(&a).into_iter().map(|x| x.1).collect();
+    let mut gone = vec![];
+    for (name, h) in digest_wal_files(&b) {
+        if let Some(p) = left.iter().position(|x| *x == h) {
+            left.remove(p);
+        } else {
+            gone.push(name);
+        }
+    }
+    gone
+}
+
+/// Direct oracle for the reclaimer (C12), evaluated on the engine's own state right before a
+/// reclaim step: a WAL file that the step removed must hold no block that some topic's
+/// consumer has not moved past - in memory and, for StrictlyAtOnce, in the durable cursor -
+/// and no writer's active block.
+pub fn reclaim_oracle(strict: bool, before: &str, after: &str) -> Option<String> {
+    let gone = deleted_wal_files(before, after);
+    if gone.is_empty() {
+        return None;
+    }
+    let b: serde_json::Value = serde_json::from_str(before).ok()?;
+    let topics = b["topics"].as_object()?;
+    for f in gone.iter() {
+        for (t, v) in topics.iter() {
+            if v["writer"]["blk"]["file"].as_str() == Some(f.as_str()) {
+                return Some(format!("the reclaimer removed WAL file {} while it holds the active block of topic {:?}", f, t));
+            }
+            let Some(chain) = v["chain"].as_array() else { continue };
+            let cur = v["cur_idx"].as_u64().unwrap_or(0);
+            let cur_off = v["cur_off"].as_u64().unwrap_or(0);
+            let in_tail = v["idx"]["tail"].as_u64() == Some(1);
+            let durable = v["idx"]["i"].as_u64();
+            let durable_off = v["idx"]["off"].as_u64().unwrap_or(0);
+            for (p, blk) in chain.iter().enumerate() {
+                let used = blk["used"].as_u64().unwrap_or(0);
+                if blk["file"].as_str() != Some(f.as_str()) || used == 0 {
+                    continue;
+                }
+                // a block is consumed when the cursor is behind it, or at its very end
+                let p = p as u64;
+                if !(p < cur || (p == cur && cur_off >= used)) {
+                    return Some(format!(
+                        "the reclaimer removed WAL file {} while block #{} of topic {:?} (chain position {}, {} bytes used) has not been consumed: the consumer is at chain position {}",
+                        f, blk["id"], t, p, used, cur
+                    ));
+                }
+                if strict && !in_tail && durable.map(|d| !(d > p || (d == p && durable_off >= used))).unwrap_or(true) {
+                    return Some(format!(
+                        "the reclaimer removed WAL file {} while the durable cursor of topic {:?} ({:?}) has not moved past its block at chain position {}",
+                        f, t, v["idx"], p
+                    ));
+                }
+            }
+        }
+    }
+    None
 }
 
 #[allow(clippy::too_many_arguments)]
@@ -692,7 +780,7 @@ fn run_tails(
                 cfg: cfg.clone(),
                 ops,
                 want_digest: false,
-                digest_each: false,
+                digest_each: spec.prop == "C12",
                 want_listing: false,
                 isolate: spec.isolate,
                 trace: false,
@@ -721,7 +809,12 @@ fn run_tails(
             } else if res.obs.len() == job.ops.len() {
                 for i in hl..job.ops.len() {
                     let pre = model.clone();
-                    let ds = model.step(&job.ops[i], &res.obs[i]);
+                    let mut ds = model.step(&job.ops[i], &res.obs[i]);
+                    if spec.prop == "C12" && matches!(job.ops[i], Op::ReclaimTick) && i >= 1 && res.digests.len() == job.ops.len() {
+                        if let Some(msg) = reclaim_oracle(cfg.cons == Consistency::Strict, &res.digests[i - 1], &res.digests[i]) {
+                            ds.push(Discrepancy { class: "reclaim.unconsumed", detail: msg, pure_loss: false, pure_redelivery: false });
+                        }
+                    }
                     let foreign_core = ds.iter().any(|x| is_core(x.class) && !spec.owned.contains(&x.class));
                     if foreign_core {
                         break;
